@@ -514,6 +514,7 @@ def _oracle(f, args):
         arity(args, 3, 3)
         if args[1][0] != 'k' or args[1][1] not in (b'le', b'be', b'native'): raise Err()
         a = args[2]
+        if f == 'buffer/push-uint64' and a[0] in BYTES: raise NoOpinion()   # the u64 conversion also parses strings
         if a[0] not in ('i', 'd'): raise Err()
         e = '>' if args[1][1] == b'be' else '<'
         if f == 'buffer/push-uint64':
